@@ -26,7 +26,7 @@ RULE = (
     "final result equals the plain synchronous result; 3 runs under the threaded scheduler (8 workers) agree. "
     "Non-trivial = graph with >=2 tasks sharing an input (a key with >=2 dependents) and >=2 blocks."
 )
-BUDGET = {"quick": 160, "thorough": 1800}
+BUDGET = {"quick": 320, "thorough": 1920}
 ASSUMPTIONS = [
     "purity is judged by content digests, not by handing out read-only buffers (numba/numbagg kernels may refuse those)",
     "data races are excluded by the absence of writes to shared inputs, not by observing instruction-level interleavings",
